@@ -4,8 +4,6 @@ From RQ Require Import Base.Outcome Base.ListX Gen.OctetTables Spec.GF256 Model.
 Import ListNotations.
 Open Scope N_scope.
 
-Definition expN (i : N) : N := nth (N.to_nat i) OCT_EXP 0.
-Definition logN (a : N) : N := nth (N.to_nat a) OCT_LOG 0.
 
 Definition oeqb (x : outcome N) (v : N) : bool :=
   match x with Ok w => w =? v | Panic _ => false end.
@@ -55,9 +53,6 @@ Proof.
   destruct (log_facts (expN i) Hlt Hnz) as [_ He]. rewrite Hlog in He. symmetry. exact He.
 Qed.
 
-(* total multiplication / division on values, as computed through the tables *)
-Definition mulN (a b : N) : N := if (a =? 0) || (b =? 0) then 0 else expN (logN a + logN b).
-Definition divN (a b : N) : N := if a =? 0 then 0 else expN (255 + logN a - logN b).
 
 Lemma oct_mul_ok a b : a < 256 -> b < 256 -> oct_mul a b = Ok (mulN a b).
 Proof.
